@@ -131,7 +131,13 @@ class ModuleAstInfo:
             iter(
                 scope
                 for scope in nodes_of_class(self.module_ast, SCOPE_CLASSES)
-                if scope_line_range(scope)[0] == lineno
+                # The code object of a decorated function or class starts at its first
+                # decorator, the AST node at the "def" or "class" line.
+                if min((
+                    scope_line_range(scope)[0],
+                    *(decorator.lineno for decorator in getattr(scope, "decorator_list", ())),
+                ))
+                == lineno
             ),
             None,
         )
